@@ -591,10 +591,24 @@ def rule_chunk(r):
                 if a_ == "step":
                     names[p_] = Ssym
         a = lp.iter.args
+        body_vals = {}
         if host is fn:
-            st = [s for s in lp.body if isinstance(s, ast.Assign) and pf.unparse(s.targets[0]) == "stop"]
-            start_e, stop_e = lp.target, (st[0].value if st else None)
-            S_name, T_name = V, "stop"
+            # the names handed to the kernel as (pd_start, pd_stop), and their values from the loop body's own assignments
+            put0 = [s for s in lp.body if isinstance(s, ast.Assign) and isinstance(s.targets[0], ast.Subscript)
+                    and pf.unparse(s.targets[0].slice) == "1:3" and isinstance(s.value, ast.List) and len(s.value.elts) == 2]
+            if not put0:
+                raise AnalysisError("%s: kernel_args[1:3] = [start, stop] not found in the chunk loop" % modname)
+            S_e, T_e = (_strip_int(e) for e in put0[0].value.elts)
+            S_name, T_name = pf.unparse(S_e), pf.unparse(T_e)
+            for s_ in lp.body:
+                if s_ is put0[0]:
+                    break
+                if isinstance(s_, ast.Assign) and len(s_.targets) == 1 and isinstance(s_.targets[0], ast.Name):
+                    body_vals[s_.targets[0].id] = s_.value
+            start_e = lp.target if S_name == V else body_vals.get(S_name)
+            stop_e = body_vals.get(T_name)
+            if start_e is None:
+                raise AnalysisError("%s: chunk start %s is not the loop variable nor assigned in the loop" % (modname, S_name))
         else:
             ys = [n for n in ast.walk(lp) if isinstance(n, ast.Yield)]
             if len(ys) != 1 or not isinstance(ys[0].value, ast.Tuple) or len(ys[0].value.elts) != 2:
@@ -606,17 +620,29 @@ def rule_chunk(r):
             S_name, T_name = pf.unparse(tg.elts[0]), pf.unparse(tg.elts[1])
         if stop_e is None:
             raise AnalysisError("%s: chunk stop not found" % modname)
+        # body-local temporaries (start = k*step) are resolved in order
+        for nm_, val_ in body_vals.items():
+            if nm_ not in names:
+                try:
+                    names[nm_] = _chunk_sym(val_, names)
+                except AnalysisError:
+                    pass
         start_v, stop_v = _chunk_sym(start_e, names), _chunk_sym(stop_e, names)
         same_ = lambda x, y: sp.simplify(x - y) == 0
+
+        def min_same(x, y):
+            if isinstance(x, sp.Min) and isinstance(y, sp.Min) and len(x.args) == len(y.args):
+                return {sp.expand(a_) for a_ in x.args} == {sp.expand(a_) for a_ in y.args}
+            return same_(x, y)
         if len(a) == 3:
             okr = same_(_chunk_sym(a[0], names), 0) and same_(_chunk_sym(a[1], names), Nsym) and same_(_chunk_sym(a[2], names), Ssym)
             r.check(okr, hf, hq, "for %s in range(%s)" % (V, ", ".join(pf.unparse(x) for x in a)), lp.lineno,
                     "chunks start at 0 and advance by step up to num_eval")
-            okt = same_(start_v, Vsym) and stop_v == sp.Min(Vsym + Ssym, Nsym)
+            okt = same_(start_v, Vsym) and min_same(stop_v, sp.Min(Vsym + Ssym, Nsym))
             r.check(okt, hf, hq, "start = %s, stop = %s" % (pf.unparse(start_e), pf.unparse(stop_e)), lp.lineno,
                     "each chunk ends where the next begins; the last at num_eval")
         elif len(a) == 1:
-            okt = same_(start_v, Vsym * Ssym) and stop_v == sp.Min((Vsym + 1) * Ssym, Nsym)
+            okt = same_(start_v, Vsym * Ssym) and min_same(stop_v, sp.Min((Vsym + 1) * Ssym, Nsym))
             r.check(okt, hf, hq, "start = %s, stop = %s" % (pf.unparse(start_e), pf.unparse(stop_e)), lp.lineno,
                     "k-th chunk is [k*step, min((k+1)*step, num_eval))")
             cnt = _chunk_sym(a[0], names)
@@ -647,7 +673,7 @@ def rule_chunk(r):
         r.check(okp, f, qual, pf.unparse(stp[-1]) if stp else "step", stp[-1].lineno if stp else 0, "positive step")
         put = [s for s in caller_loop.body if isinstance(s, ast.Assign) and isinstance(s.targets[0], ast.Subscript)
                and pf.unparse(s.targets[0].slice) == "1:3"]
-        r.check(bool(put) and pf.unparse(put[0].value) in ("[%s, %s]" % (S_name, T_name), "[np.int32(%s), np.int32(%s)]" % (S_name, T_name)), f, qual,
+        r.check(bool(put) and isinstance(put[0].value, ast.List) and [pf.unparse(_strip_int(e_)) for e_ in put[0].value.elts] == [S_name, T_name], f, qual,
                 pf.unparse(put[0]) if put else "args[1:3] = [start, stop]", put[0].lineno if put else 0,
                 "pd_start, pd_stop are argument slots 1 and 2 of the kernel")
 
